@@ -73,6 +73,8 @@ pub fn main() {
     let shards = n_shards(&run);
     let run = &run;
     crate::witness::c04(run);
+    let statics = static_family(run);
+    let statics = &statics;
     std::thread::scope(|sc| {
         for shard in 0..shards {
             sc.spawn(move || {
@@ -101,9 +103,26 @@ pub fn main() {
                     let case = Case::new(ts.clone(), gd, world, r.bool());
                     one_case(run, &schema, &case, &mut r, randoms);
                 }
+                // the generated derive-built family (harness/gens; MergedObject mutation roots among them): an eighth
+                // of the cases per member
+                for m in statics.iter().filter(|m| m.name != "S1") {
+                    let mut i = shard;
+                    while i < cases / 8 {
+                        i += shards;
+                        let mut o = doc_opts(run);
+                        o.max_depth = 3;
+                        o.kind = if m.ts.mutation.is_some() && r.chance(2, 3) { OpKind::Mutation } else { OpKind::Query };
+                        let gd = gen_doc(&m.ts, &mut r, &o);
+                        let world = world_for(m.schema.flavour(), r.next_u64());
+                        let case = Case::new(m.ts.clone(), gd, world, r.bool());
+                        run.count(&format!("static_cases_{}", m.name), 1);
+                        one_case(run, &m.schema, &case, &mut r, randoms);
+                    }
+                }
             });
         }
     });
+    run.extra("static_schemas", static_family_extra(statics));
     run.finish_code_exit();
 }
 
